@@ -149,3 +149,19 @@ def count_ops(ops):
         if "body" in op:
             n += count_ops(op["body"])
     return n
+
+
+def pin_torch():
+    """Ambient torch configuration of every simulated run (idempotent, cheap).
+
+    One intra-op thread (16 workers share 16 cores, and summation order is fixed), and oneDNN off:
+    in this sandbox's torch build two oneDNN kernels are defective single-threaded (torch._int_mm with a
+    contraction of length 1 and small bfloat16 convolutions return uninitialised memory), which would make
+    runs irreproducible for reasons that have nothing to do with quanto. With oneDNN off both quanto and
+    the float references use torch's native kernels."""
+    import torch
+
+    if torch.get_num_threads() != 1:
+        torch.set_num_threads(1)
+    if torch.backends.mkldnn.enabled:
+        torch.backends.mkldnn.enabled = False
